@@ -29,6 +29,37 @@ func casesMovegen(c *caseCtx) {
 	for _, s := range genStates(c, c.scale(1500, 30000)) {
 		emitMovegen(c, s)
 	}
+	// castling stress: short playouts from positions with castling rights and corner rooks under attack,
+	// move generation checked in EVERY state visited (an error in the castling rights only surfaces
+	// several moves later, when a castle is generated that should not be)
+	castleStarts := curatedFENs[len(curatedFENs)-8:]
+	for g := 0; g < c.scale(70, 3000); g++ {
+		start := mustDecode(castleStarts[c.r.Intn(len(castleStarts))])
+		sts, ms := castlePlayout(c, start, 8+c.r.Intn(10))
+		// the whole game against the specification game played from the start by the rules: castling
+		// rights and e.p. targets are then the oracle's own, not read off the implementation's position
+		var sets, mtoks []string
+		for _, s := range sts {
+			var l []string
+			for _, m := range legalMoves(s.pos, s.turn) {
+				l = append(l, fmt.Sprintf("%d-%d-%d", m.From, m.To, promoCode(m)))
+			}
+			if len(l) == 0 {
+				l = []string{"-"}
+			}
+			sets = append(sets, strings.Join(l, ","))
+		}
+		for _, m := range ms {
+			mtoks = append(mtoks, moveTok(m))
+		}
+		if len(mtoks) == 0 {
+			mtoks = []string{"-"}
+		}
+		c.emit("gamegen %s %d :: %s => %s", posTok(start.pos), start.turn, strings.Join(mtoks, " "), strings.Join(sets, " | "))
+		if len(sts) > 0 {
+			emitMovegen(c, sts[len(sts)-1])
+		}
+	}
 	// perft on the standard positions (spec perft vs implementation perft)
 	depth := c.scale(2, 3)
 	for i, f := range curatedFENs {
@@ -146,6 +177,23 @@ func casesAttacks(c *caseCtx) {
 			}
 		}
 	}
+	// every pair (slider square, one other occupied square): a wrong rotation entry for the other square
+	// shows up as a phantom blocker or a transparent piece on some line of some slider square
+	for sq := board.ZeroSquare; sq < board.NumSquares; sq++ {
+		for other := board.ZeroSquare; other < board.NumSquares; other++ {
+			if other != sq {
+				emitAttacks(c, board.BitMask(sq)|board.BitMask(other), sq)
+			}
+		}
+	}
+	// ... and the complement: everything occupied except one other square
+	for sq := board.ZeroSquare; sq < board.NumSquares; sq++ {
+		for other := board.ZeroSquare; other < board.NumSquares; other++ {
+			if other != sq && (c.thorough() || (int(sq)+int(other))%4 == 0) {
+				emitAttacks(c, ^board.BitMask(other), sq)
+			}
+		}
+	}
 	for i := 0; i < c.scale(20000, 400000); i++ {
 		occ := board.Bitboard(c.r.Uint64())
 		switch c.r.Intn(3) {
@@ -165,4 +213,56 @@ func casesAttacks(c *caseCtx) {
 	for _, s := range genStates(c, c.scale(600, 12000)) {
 		emitQueries(c, s)
 	}
+}
+
+func isCorner(sq board.Square) bool {
+	return sq == board.A1 || sq == board.H1 || sq == board.A8 || sq == board.H8
+}
+
+// castlePlayout biases the game towards the life cycle of a castling right: pieces capturing on a
+// corner, pieces other than rooks leaving a corner, rooks returning to an empty home corner, castling.
+func promoCode(m board.Move) int {
+	if m.IsPromotion() {
+		return int(m.Promotion)
+	}
+	return 0
+}
+
+func castlePlayout(c *caseCtx, start state, plies int) ([]state, []board.Move) {
+	var played []board.Move
+	ret := []state{start}
+	cur := start
+	for i := 0; i < plies; i++ {
+		moves := legalMoves(cur.pos, cur.turn)
+		if len(moves) == 0 {
+			break
+		}
+		var pri []board.Move
+		for _, m := range moves {
+			switch {
+			case isCorner(m.To) && m.IsCapture():
+				pri = append(pri, m, m)
+			case isCorner(m.From) && m.Piece != board.Rook:
+				pri = append(pri, m)
+			case isCorner(m.To) && m.Piece == board.Rook && !m.IsCapture():
+				pri = append(pri, m, m)
+			case m.IsCastle():
+				pri = append(pri, m)
+			}
+		}
+		var m board.Move
+		if len(pri) > 0 && c.r.Intn(3) != 0 {
+			m = pri[c.r.Intn(len(pri))]
+		} else {
+			m = moves[c.r.Intn(len(moves))]
+		}
+		next, ok := cur.pos.Move(m)
+		if !ok {
+			break
+		}
+		cur = state{next, cur.turn.Opponent()}
+		ret = append(ret, cur)
+		played = append(played, m)
+	}
+	return ret, played
 }
